@@ -300,7 +300,7 @@ func insertVisitor.VisitMutateOp
 
 // the cache holds the true hash of every subtree completed before version V
 define frozenBefore(i, h, V) = h < 64 && i + ((uint64(1) << uint64(h)) - 1) >= i && i + ((uint64(1) << uint64(h)) - 1) < V
-define StoreOK(c, V) = forall i uint64 :: forall h uint16 :: frozenBefore(i, h, V) ==> pathval(c, posb(i, h)) == Hist(i, h, V)
+define StoreOK(c, V) = forall i uint64 :: forall h uint16 :: frozenBefore(i, h, V) ==> pathval(c, posb(i, h)) == HistFull(i, h)
 
 func pruneToInsert
   props C04
@@ -323,7 +323,9 @@ func pruneToInsert.traverse
 //
 // x lies in the index range of the subtree at (i,h), and that range does not wrap around 2^64
 // (positions reached from a root are aligned, which implies it; alignment itself is not needed)
-define inRange(x, i, h) = i <= x && ((h >= 64 && i == 0) || (h < 64 && x - i < (uint64(1) << uint64(h)) && i + ((uint64(1) << uint64(h)) - 1) >= i))
+// the subtree at (i,h) is complete in the tree of version V: its last leaf exists
+define completeAt(i, h, V) = h < 64 && i + ((uint64(1) << uint64(h)) - 1) >= i && i + ((uint64(1) << uint64(h)) - 1) <= V
+define inRange(x, i, h) =i <= x && ((h >= 64 && i == 0) || (h < 64 && x - i < (uint64(1) << uint64(h)) && i + ((uint64(1) << uint64(h)) - 1) >= i))
 
 func pruneToVerify
   props C02 C12
@@ -338,6 +340,9 @@ func pruneToVerify.traverse
   ensures C02/recomputation-is-a-hash: blen(evalC(result, thePath())) == hlen()
   // (index <= version matters: beyond the version the leaf falls into a subtree that a partial node drops)
   ensures C02/binding: index <= version && inRange(index, pos.Index, pos.Height) && evalC(result, thePath()) == Hist(pos.Index, pos.Height, version) ==> bytes(eventDigest) == ev(index)
+  // the same for a subtree that is complete in this version (a left child of the path): its true
+  // hash is the version-independent HistFull
+  ensures C02/binding-in-a-complete-subtree: index <= version && inRange(index, pos.Index, pos.Height) && completeAt(pos.Index, pos.Height, version) && evalC(result, thePath()) == HistFull(pos.Index, pos.Height) ==> bytes(eventDigest) == ev(index)
 
 func pruneToVerifyIncrementalStart
   props C03 C12
